@@ -607,13 +607,18 @@ def normalize(text: str, ml_tokens):
         out.append(text[pos:i].replace("\r", ""))
         out.append(tok)
         pos = i + len(tok)
+    ml_end = sum(len(o) for o in out)      # end, in the result, of the last multi-line string token
     out.append(text[pos:].replace("\r", ""))
     res = "".join(out)
     if res and not res.endswith("\n"):
-        last = res.split("\n")[-1]
-        st = last.strip(" \t")
-        if st and not st.startswith("#"):
+        start = res.rfind("\n") + 1
+        if start < ml_end:
+            # the last line begins inside a multi-line string: it holds the end of a key/value
             res += "\n"
+        else:
+            st = res[start:].strip(" \t")
+            if st and not st.startswith("#"):
+                res += "\n"
     return res
 
 
